@@ -3302,6 +3302,11 @@ func (c S3ApiController) HeadObject(ctx *fiber.Ctx) error {
 		partNumber = &partNumberQuery
 	}
 
+	action := auth.GetObjectAction
+	if versionId != "" {
+		action = auth.GetObjectVersionAction
+	}
+
 	err := auth.VerifyAccess(ctx.Context(), c.be,
 		auth.AccessOptions{
 			Readonly:      c.readonly,
@@ -3311,7 +3316,7 @@ func (c S3ApiController) HeadObject(ctx *fiber.Ctx) error {
 			Acc:           acct,
 			Bucket:        bucket,
 			Object:        key,
-			Action:        auth.GetObjectAction,
+			Action:        action,
 		})
 	if err != nil {
 		return SendResponse(ctx, err,
